@@ -312,6 +312,20 @@ func c19Body(r *rand.Rand, aliasing bool, name string) []byte {
 		rest := []string{"l/workbook.xml", "ord/document.xml", "pt/presentation.xml", "/a", "d/x", "ETA-INF/MANIFEST.MF", "t/x"}
 		return []byte(rest[r.Intn(len(rest))] + "<x/>")
 	}
+	if r.Intn(8) == 0 {
+		// body begins where an extra field would begin: extra-field ids (0xCAFE = the JDK's jar
+		// magic, 0x5455, 0x000a, 0x7875, 0x0001), small lengths, or a literal of the tree's source
+		heads := [][]byte{{0xFE, 0xCA, 0x00, 0x00}, {0xFE, 0xCA}, {0xCA, 0xFE}, {0x55, 0x54, 0x05, 0x00, 0x01}, {0x0a, 0x00, 0x20, 0x00}, {0x75, 0x78, 0x0b, 0x00}, {0x01, 0x00, 0x10, 0x00}, {0x00, 0x00}, {0xFF, 0xFF}}
+		h := heads[r.Intn(len(heads))]
+		if r.Intn(3) == 0 {
+			if d := lib.SourceDictionary(); len(d) > 0 {
+				if t := d[r.Intn(len(d))]; len(t) > 0 && len(t) <= 40 && !bytes.Contains(t, []byte("PK")) {
+					h = t
+				}
+			}
+		}
+		return append(append([]byte{}, h...), "rest of the body"...)
+	}
 	switch r.Intn(6) {
 	case 0:
 		return nil
@@ -525,7 +539,7 @@ func init() {
 	fw.Register(&fw.Prop{
 		ID:    "C19",
 		Level: "exploration",
-		Rule: "archives are written with archive/zip from generated entry lists: OOXML-like packages ([Content_Types].xml first, bookkeeping parts _rels / docProps / customXml / [trash] in any combination incl. directory entries, one marker part word/ xl/ ppt/ at positions 2-10, sometimes further markers, near-miss names words/ Word/ xl.xml pptx/, every marker in other letter cases (meta-inf/manifest.mf, androidmanifest.xml, CLASSES.DEX, WORD/ …) and proper prefixes x xl wor word pp M, unrelated names of 1-60 characters), JARs, APK-like, ODF/EPUB with a stored 'mimetype' first entry (exact and near-miss contents), unrelated-only archives; every entry is written in one of 6 ways (Create = deflate + data descriptor; store + descriptor; CreateRaw store with sizes; CreateRaw deflate with sizes; deflate + descriptor + extended-timestamp extra field; directory entry); bodies empty / one byte / XML-like / random / large; an 'aliasing' family puts the remainder of a marker at the start of a body that follows a proper-prefix name. A few packages carry a part of more than 1 MiB in front of the marker, and pairs of equal-length archives are detected one after the other in the same buffer. Archives whose bytes contain PK\\x03\\x04 other than at entry headers are dropped. The entry list is read back with zip.Reader and decides P1 P2 P3 N1 N2 and the application/zip parent; limit 0. " +
+		Rule: "archives are written with archive/zip from generated entry lists: OOXML-like packages ([Content_Types].xml first, bookkeeping parts _rels / docProps / customXml / [trash] in any combination incl. directory entries, one marker part word/ xl/ ppt/ at positions 2-10, sometimes further markers, near-miss names words/ Word/ xl.xml pptx/, every marker in other letter cases (meta-inf/manifest.mf, androidmanifest.xml, CLASSES.DEX, WORD/ …) and proper prefixes x xl wor word pp M, unrelated names of 1-60 characters), JARs, APK-like, ODF/EPUB with a stored 'mimetype' first entry (exact and near-miss contents), unrelated-only archives; every entry is written in one of 6 ways (Create = deflate + data descriptor; store + descriptor; CreateRaw store with sizes; CreateRaw deflate with sizes; deflate + descriptor + extended-timestamp extra field; directory entry); bodies empty / one byte / XML-like / random / large / beginning with extra-field ids (0xCAFE, 0x5455, …) or literals of the tree's source; an 'aliasing' family puts the remainder of a marker at the start of a body that follows a proper-prefix name. A few packages carry a part of more than 1 MiB in front of the marker, and pairs of equal-length archives are detected one after the other in the same buffer. Archives whose bytes contain PK\\x03\\x04 other than at entry headers are dropped. The entry list is read back with zip.Reader and decides P1 P2 P3 N1 N2 and the application/zip parent; limit 0. " +
 			"non-trivial = an archive with a claim (P1/P2/P3/N2) and more than one entry; distinct = distinct (family, claim, verdict, set of writer modes used, position of the first marker, entry count).",
 		Assumptions: []string{
 			"archive/zip is the standard writer and reader",
